@@ -355,12 +355,12 @@ TIES = {
     'ValidateMatch': dict(props=['C05', 'C15'], theorems=['validate_match_eq', 'validate_tie'], cxx='sequence_type::validate_match (sequence.hpp)'),
     'SeqDtor': dict(props=['C06', 'C14'], theorems=['seq_dtor_eq', 'teardown_tie'], cxx='sequence_type::~sequence_type (sequence.hpp)'),
     'RunActions': dict(props=['C01', 'C05', 'C07', 'C16'], theorems=['run_actions_order'], cxx='call_matcher::run_actions (mock.hpp)'),
-    'SemRunActions': dict(props=['C01', 'C05', 'C07'], theorems=['run_actions_sem'], cxx='call_matcher::run_actions (mock.hpp), meaning of its trace'),
-    'SemNotify': dict(props=['C05', 'C06'], theorems=['notify_sem'], cxx='lifetime_monitor::notify (lifetime.hpp), meaning of its trace'),
-    'SemRelease': dict(props=['C04'], theorems=['release_sem'], cxx='call_matcher::~call_matcher (mock.hpp), meaning of its trace'),
-    'SemDecommission': dict(props=['C04'], theorems=['decommission_sem'], cxx='call_matcher_list::decommission (mock.hpp), meaning of its trace'),
-    'SemKillw': dict(props=['C13'], theorems=['killw_sem'], cxx='deathwatched<T>::~deathwatched (lifetime.hpp), meaning of its trace'),
-    'SemReleasemon': dict(props=['C13'], theorems=['releasemon_sem'], cxx='lifetime_monitor::~lifetime_monitor (lifetime.hpp), meaning of its trace'),
+    'SemRunActions': dict(gen=['RunActions'], props=['C01', 'C05', 'C07'], theorems=['run_actions_sem'], cxx='call_matcher::run_actions (mock.hpp), meaning of its trace'),
+    'SemNotify': dict(gen=['Notify'], props=['C05', 'C06'], theorems=['notify_sem'], cxx='lifetime_monitor::notify (lifetime.hpp), meaning of its trace'),
+    'SemRelease': dict(gen=['CallMatcherDtor', 'IsUnfulfilled', 'ReportMissed'], props=['C04'], theorems=['release_sem'], cxx='call_matcher::~call_matcher (mock.hpp), meaning of its trace'),
+    'SemDecommission': dict(gen=['Decommission', 'MockDestroyed', 'ReportMissed'], props=['C04'], theorems=['decommission_sem'], cxx='call_matcher_list::decommission (mock.hpp), meaning of its trace'),
+    'SemKillw': dict(gen=['DeathwatchedDtor'], props=['C13'], theorems=['killw_sem'], cxx='deathwatched<T>::~deathwatched (lifetime.hpp), meaning of its trace'),
+    'SemReleasemon': dict(gen=['LifetimeMonitorDtor'], props=['C13'], theorems=['releasemon_sem'], cxx='lifetime_monitor::~lifetime_monitor (lifetime.hpp), meaning of its trace'),
     'CallMatcherDtor': dict(props=['C04'], theorems=['call_matcher_dtor_order'], cxx='call_matcher::~call_matcher (mock.hpp)'),
     'MockDestroyed': dict(props=['C04'], theorems=['mock_destroyed_order'], cxx='call_matcher::mock_destroyed (mock.hpp)'),
     'IsUnfulfilled': dict(props=['C04'], theorems=['is_unfulfilled_tie'], cxx='call_matcher::is_unfulfilled (mock.hpp)'),
@@ -384,6 +384,10 @@ TIES = {
     'HandlerIsSaturated': dict(props=['C03'], theorems=['is_saturated_tie'], cxx='sequence_handler_base::is_saturated (mock.hpp)'),
     'HandlerIsForbidden': dict(props=['C07'], theorems=['is_forbidden_tie'], cxx='sequence_handler_base::is_forbidden (mock.hpp)'),
     'HandlerIncrementCall': dict(props=['C03'], theorems=['increment_call_tie'], cxx='sequence_handler_base::increment_call (mock.hpp)'),
+    'Hexdump': dict(props=['C18'], theorems=['hexdump_eq'], cxx='trompeloeil::hexdump (mock.hpp)'),
+    'StreamSentry': dict(props=['C18'], gen=['StreamSentryCtor', 'StreamSentryDtor'],
+                         theorems=['sentry_ctor_establishes', 'sentry_dtor_restores', 'stream_sentry_dtor_order'],
+                         cxx='stream_sentry constructor and destructor (mock.hpp)'),
     'HandleIsOptional': dict(props=['C05'], theorems=['is_optional_tie'], cxx='sequence_matcher::is_optional (sequence.hpp)'),
 }
 
@@ -413,7 +417,10 @@ def tie_check(prop, lean_dir=None):
     lean_dir = lean_dir or lean_workdir()
     cxx2lean.REPO = REPO
     index, failures = cxx2lean.generate(os.path.join(lean_dir, 'TrompModel', 'Gen'))
-    res['index'] = ['%s <- %s:%d' % (n, f, ln) for n, m, f, ln in index if m in mods]
+    gens = set()
+    for m in mods:
+        gens.update(TIES[m].get('gen', [m]))
+    res['index'] = ['%s <- %s:%d' % (n, f, ln) for n, m, f, ln in index if m in gens]
     failed_mods = {}
     for name, mod, msg in failures:
         failed_mods[mod] = 'translator: ' + msg
